@@ -183,4 +183,39 @@ PROPS = {
                  "per-owner conservation; balance can rise only by the owner's own matured locks (unmatured locked amount never decreases); failed op is a no-op; "
                  "model tied to the real msg server/keeper by differential run",
  },
+ "C03": {
+  "modules": ["OsmoVerif.Props.C03"],
+  "min_theorems": 35,
+  "fingerprints": ["CL.*"],
+  "engines": [{"name": "clmath", "kind": "pure", "n": {"quick": 40000, "thorough": 500000}, "shards": {"quick": 4, "thorough": 16}},
+              {"name": "cl", "kind": "app", "n": {"quick": 1500, "thorough": 20000}, "shards": {"quick": 4, "thorough": 16}}],
+  "rule": "clmath: stratified (liquidity, sqrt-price pairs from real ticks, remaining amounts around the amount needed to reach the target, all authorised spread factors) for "
+          "amount deltas, next-price functions and the four within-bucket step functions; cl: histories on one concentrated pool with swaps of both kinds/directions from 1 unit "
+          "to draining over overlapping/nested/abutting/gapped positions; distinct = distinct op lines",
+  "trusted_base": ["osmomath arithmetic as proved in C12", "tick conversions as proved in C14"],
+  "assumptions": ["PARTIAL: the whole-swap comparison with the exact curve (`swap_vs_exact_curve`) is proved conditionally on `StepOK` (non-negative liquidity in every visited bucket; "
+                  "for exact-out the target on the swap side of the current price) - facts that follow from the pool invariant of C07 but are not yet discharged inside C03; "
+                  "the bounded-rounding distance and there-and-back clauses are decided by the cl engine's exact rational walk on the real keeper",
+                  "estimates leaving state untouched is structural in the model (pure function) and checked on the implementation by store digests"],
+  "explanation": "theorems are proved THROUGH the regenerated operator lists (Gen.CL.ops_*): a changed rounding operator in the Go source changes the model and breaks the unfolding obligations",
+ },
+ "C02": {
+  "modules": ["OsmoVerif.Props.C02"],
+  "min_theorems": 17,
+  "fingerprints": ["Gamm.*"],
+  "engines": [{"name": "gamm", "kind": "app", "n": {"quick": 2500, "thorough": 60000}, "shards": {"quick": 4, "thorough": 16}}],
+  "rule": "histories of 40..140 messages on a fresh chain: 4 actors (one poor), 2..6 balancer pools (2..8 assets, weights 1:1..1:1048575, spread 0..0.5, "
+          "also pools of LP shares) and stableswap pools (scaling factors 1..10^6); every join/exit kind, 1..4-hop exact-in and exact-out routes through both "
+          "msg servers, direct sends to existing and future pool addresses, share transfers, taker fee default/pair overrides/whitelist incl. 0, 1 ulp, 100%; "
+          "amounts from 1 unit to 1000x the reserve; an evaluation is one message (op line + full ledger dump); non-trivial = a message line",
+  "trusted_base": ["cosmos-sdk x/bank and x/distribution keepers (modelled as the ledger Model/Ledger)",
+                   "the pool-model results on each op line are produced by the engine calling the real pool structs' methods on private copies (pool math is C04)"],
+  "assumptions": ["pool math is out of scope: theorems hold for any pool-math results; the equality pool account = reserves + donations needs the history to "
+                  "stay inside the pool-math contract (ghost flag `clean`, characterised by contract_swap/contract_exit/contract_join)",
+                  "tx atomicity (failed message = no state change) is the cache-context discipline of baseapp, reproduced by the engine"],
+  "explanation": "trace refinement: the Lean model is the bank ledger + pool-record bookkeeping of the gamm keeper and the poolmanager router, replayed on every "
+                 "message with the pool-math results of that step and compared with ALL balances, supplies and pool records of the real chain; theorems by induction "
+                 "over arbitrary histories: share supply = total shares, token supplies constant, supply = sum of balances, pool account = reserves + donations "
+                 "(inside the contract), exact per-hop accounting of trader / pool / taker-fee collector, third parties untouched",
+ },
 }
